@@ -102,6 +102,20 @@ def run_check(mod, tier, seed, skip_proofs=False):
             print(log_run[-4000:])
             print(f"harness runner Harness/{mod.RUN_MODULE}.v does not build", file=sys.stderr)
             broken.append(f"Harness/{mod.RUN_MODULE}.v does not build (model or generated definitions ill-typed)")
+        # optional second runner that evaluates GENERATED definitions (coq/Gen): when the regenerated file no longer
+        # compiles the hand-written model must still run, so the case terms fall back to the model-only form
+        run_module = mod.RUN_MODULE
+        gen_runner = getattr(mod, "RUN_MODULE_GEN", None)
+        if gen_runner:
+            ok_g, log_g = C.make_targets([f"Harness/{gen_runner}.vo"])
+            if ok_g:
+                run_module = gen_runner
+                os.environ["VERIF_GENRUN"] = "1"
+            else:
+                os.environ["VERIF_GENRUN"] = "0"
+                print(log_g[-2000:])
+                broken.append(f"Harness/{gen_runner}.v does not build (generated definitions ill-typed): the correspondence "
+                              f"run uses the hand-written model only")
         obligations = C.props_obligations(mod.PROPS_FILE)
         discharged = 0
         closed = 0
@@ -151,7 +165,7 @@ def run_check(mod, tier, seed, skip_proofs=False):
                     print(f"HARNESS ERROR building the model term of case {json.dumps(c)[:400]}: "
                           f"{type(e).__name__}: {e}", file=sys.stderr)
                     terms.append("[-999998]")
-            mism, errors = C.run_model(pid, mod.RUN_MODULE, terms, observed,
+            mism, errors = C.run_model(pid, run_module, terms, observed,
                                        shard_size=getattr(mod, "SHARD", 300))
         return cases, observed, herr, mism, errors
 
